@@ -953,9 +953,12 @@ def mag_probe(wd, cases, compiler, std, tag):
         body.append(f"  ser(au::mag<{a}ull>()); ser(au::mag<{b}ull>()); ser(au::mag<{a * b}ull>());")
     body.append("  return 0;\n}")
     open(src, "w").write("\n".join(body))
-    extra = ["-fconstexpr-ops-limit=2000000000", "-fconstexpr-loop-limit=100000000"] if compiler == "g++" else \
-            ["-fconstexpr-steps=2000000000"]
-    rc, out = cxx(src, exe, compiler=compiler, std=std, san=False, extra=extra)
+    extra = ["-fconstexpr-ops-limit=400000000", "-fconstexpr-loop-limit=50000000"] if compiler == "g++" else \
+            ["-fconstexpr-steps=400000000"]
+    try:
+        rc, out = cxx(src, exe, compiler=compiler, std=std, san=False, extra=extra, timeout=420)
+    except Exception as ex:       # subprocess.TimeoutExpired: constant evaluation does not end
+        return 124, f"compilation did not finish: {ex}"
     if rc != 0:
         return rc, out
     rc, o, e = run([exe])
@@ -1234,7 +1237,7 @@ def explore(tier, seed, rng, wd, violations):
         cname = f"{cfg[0]} -std={cfg[1]}"
         if rc != 0:
             # find the failing case, if a static_assert fired
-            conc = "static assertion failed" in out or "static_assert failed" in out
+            conc = "static assertion failed" in out or "static_assert failed" in out or "C12 product" in out or "C12 type" in out
             violations.append({"what": f"mag<a>()*mag<b>() == mag<a*b>() probe does not compile under {cname}",
                                "class": "oracle-mag-build", "no_input": not conc, "broken": "probe: mag product",
                                "rec": {"kind": "mag", "config": cname, "output": out[-3000:], "cases": mcases}})
@@ -1265,7 +1268,11 @@ def explore(tier, seed, rng, wd, violations):
         n, should = arg
         p = os.path.join(wd, f"primeprobe_{n}.cc")
         open(p, "w").write(NEG_PRIME_PROBE % n)
-        rc, out = cxx(p, None, san=False, syntax_only=True, extra=["-fconstexpr-ops-limit=2000000000", "-fconstexpr-loop-limit=100000000"])
+        try:
+            rc, out = cxx(p, None, san=False, syntax_only=True, extra=["-fconstexpr-ops-limit=400000000", "-fconstexpr-loop-limit=50000000"],
+                          timeout=300)
+        except Exception as ex:
+            rc, out = 124, f"compilation did not finish: {ex}"
         return n, should, rc, out
     for n, should, rc, out in pmap(prime_probe, [(n, False) for n in negs] + [(n, True) for n in poss]):
         distinct.add(("Prime", n))
